@@ -103,6 +103,18 @@ pub fn check_case(ctx: &mut Ctx, c: &Case) {
         ctx.expect(|| format!("WaveletMatrix.contains[{}]", vcls), guard(|| wm.contains(v)), &!occ.is_empty(), || json!({"wm": case(), "call": format!("contains({})", v)}));
         let all: Vec<(usize, usize)> = occ.iter().copied().enumerate().collect();
         ctx.expect(|| format!("WaveletMatrix.value_iter[{}]", vcls), guard(|| wm.value_iter(v).collect::<Vec<_>>()), &all, || json!({"wm": case(), "call": format!("value_iter({})", v)}));
+        // The same listing reached by a skip, also one that runs past the last occurrence (the iterator must
+        // then stay exhausted).
+        for k in [0, all.len().saturating_sub(1), all.len(), all.len() + 1] {
+            let want = (all.get(k).copied(), all.iter().skip(k + 1).copied().collect::<Vec<_>>(), true);
+            let got = guard(|| {
+                let mut it = wm.value_iter(v);
+                let x = it.nth(k);
+                let rest: Vec<_> = it.by_ref().take(all.len() + 1).collect();
+                (x, rest, it.next().is_none())
+            });
+            ctx.expect(|| format!("WaveletMatrix.value_iter.nth[{}]", vcls), got, &want, || json!({"wm": case(), "call": format!("value_iter({}): nth({}), then next() to the end", v, k)}));
+        }
         ctx.expect(|| format!("WaveletMatrix.value_of[{}]", vcls), guard(|| WaveletMatrix::value_of(&wm.value_iter(v))), &v, || json!({"wm": case(), "call": format!("value_of(value_iter({}))", v)}));
         for &i in &idx {
             let cls = arg_class(i, n);
